@@ -72,7 +72,7 @@ def run(ck):
         pairs.append(dict(a=j["a"], b=j["b"], top_a=j["top_a"], top_b=j["top_b"], rws=j.get("rws", []),
                           origin="corpus:" + os.path.basename(j["_path"])))
     n_corpus = len(pairs)
-    n = fs.scaled(ck.n(70, 1200))
+    n = fs.scaled(ck.n(60, 1200))
     i = 0
     attempts = 0
     while len(pairs) - n_corpus < n and attempts < 4 * n:
